@@ -302,18 +302,31 @@ def _probe_instance(plan, res):
 
 
 def _reference_run(plan, res, tr, schedule):
-    """Un-interrupted run under a counting clock. -> (outcome, readings list) or None when over budget."""
+    """Un-interrupted run under a counting clock. -> (outcome, readings list) or None when over budget.
+    The readings are the enumeration basis for the interruption points. An implementation may legitimately not poll
+    the clock at all when there is no limit; the readings are then counted in a second run whose limit is finite
+    but far beyond anything the schedule can reach."""
     clock = SimClock(schedule, max_reads=plan["r_max"] + 2)
     clock.log = []
     try:
         out = _call(plan, clock, None)
+        log = clock.log
+        if len(log) <= 1:
+            clock2 = SimClock(schedule, max_reads=plan["r_max"] + 2)
+            clock2.log = []
+            out2 = _call(plan, clock2, 1.0e15)
+            res.evaluations += 1
+            if len(clock2.log) > len(log):
+                res.probe("clock_not_polled_without_limit_readings_counted_with_huge_finite_limit")
+                tr.add("count-run", readings=len(clock2.log), outcome=canon(out2[1]))
+                log = clock2.log
     except StepBudgetExceeded:
         res.discarded = "over_step_budget"
         tr.add("discard", why="reference run exceeds r_max readings", r_max=plan["r_max"])
         return None
     res.evaluations += 1
     res.sim_seconds += clock.elapsed
-    return out, clock.log
+    return out, log
 
 
 def _check_final(plan, res, tr, value, where):
